@@ -172,18 +172,20 @@ class IMAPConnection:
         return subsystem.get().execute(future)
 
     async def readline(self) -> memoryview:
-        buf = bytearray(await self.reader.readline())
+        line = await self.reader.readline()
+        buf = bytearray(line)
         while True:
-            if not buf.endswith(b'\n'):
+            if not line.endswith(b'\n'):
                 raise EOFError()
-            elif buf.endswith(b'+}\n') or buf.endswith(b'+}\r\n'):
-                lit_plus = self._literal_plus.search(buf)
+            elif line.endswith(b'+}\n') or line.endswith(b'+}\r\n'):
+                lit_plus = self._literal_plus.search(line)
             else:
                 lit_plus = None
             if lit_plus:
                 literal_length = int(lit_plus.group(1))
                 buf += await self.reader.readexactly(literal_length)
-                buf += await self.reader.readline()
+                line = await self.reader.readline()
+                buf += line
             else:
                 self._print('%s -->| %s', buf)
                 return memoryview(buf)
